@@ -41,6 +41,10 @@ def svstep (l : List Int) : VOp → Option (List Int × Option Nat)
   | .shrink => some (l, none)
   | .clear => some ([], none)
   | .assign a x => (accIdx l a).map fun i => (l.set i x, none)
+  -- a range of the vector itself: not allowed for std::vector at all; specified here (as "insert a copy of the range") where
+  -- raw_vector's result does not depend on whether it reallocates: the range lies in front of the insertion point
+  | .insertSelf pos a b =>
+    if a ≤ b ∧ b ≤ pos ∧ pos ≤ l.length then some (insertAt l pos ((l.drop a).take (b - a)), none) else none
 
 def sconstruct : Ctor → List Int
   | .dflt => []
